@@ -44,6 +44,12 @@ def check(repo, col, tier):
     _additive(repo, col)
     _types(repo, col)
     from . import c01_solver, c11
+    from . import c20 as _c20
+    col.rule("R-C09-edgerows", "edge table construction: one row per pair, pre / post compartment columns from their own side", 6)
+    _c20.edge_rows(repo, col, "R-C09-edgerows")
+    from . import cable as _cable
+    col.rule("R-C09-area", "a point current in nA becomes a density over the membrane area 2 pi r l of its compartment (x 1e5 for uA/cm2)", 1)
+    _cable.check_point_process(repo, col, "R-C09-area")
     col.rule("R-C09-units", "the synaptic current enters the voltage equation like every other current (divided by the capacitance)", 2)
     st_ = repo.method("Module", "step")
     ex_ = idx.expander(repo, st_)
